@@ -56,9 +56,21 @@ func runCrypto(args []string) error {
 		if openKey == 2 {
 			cr = c2
 		}
-		res, err := cr.Decrypt(ct)
+		var res []byte
+		var err error
+		panicked := func() (p bool) {
+			defer func() {
+				if recover() != nil {
+					p = true
+				}
+			}()
+			res, err = cr.Decrypt(ct)
+			return false
+		}()
 		fmt.Fprintf(win, "crypt %d %d %d %d %s\n", sealKey, openKey, op, arg, hx(string(pt)))
-		if err != nil {
+		if panicked {
+			fmt.Fprintln(wimpl, "panic")
+		} else if err != nil {
 			fmt.Fprintln(wimpl, "fail")
 		} else {
 			fmt.Fprintf(wimpl, "ok %s\n", hx(string(res)))
@@ -178,6 +190,16 @@ func runCrypto(args []string) error {
 				{"empty", "", "none"}, {"not-base64", "!!!", "invalid"},
 			}
 			raw, _ := base64.RawURLEncoding.DecodeString(A.cookie)
+			// every short length around the nonce and tag sizes (12, 16, 24, 40 bytes), prefix and suffix, then a stride
+			for l := 0; l < len(raw); l++ {
+				if l > 48 && *tier != "thorough" && l%17 != 0 {
+					continue
+				}
+				vs = append(vs, variant{fmt.Sprintf("prefix-%d", l), base64.RawURLEncoding.EncodeToString(raw[:l]), map[bool]string{true: "none", false: "invalid"}[l == 0]})
+				if l > 0 {
+					vs = append(vs, variant{fmt.Sprintf("suffix-%d", l), base64.RawURLEncoding.EncodeToString(raw[len(raw)-l:]), "invalid"})
+				}
+			}
 			nbits := len(raw) * 8
 			stepb := 13
 			if *tier == "thorough" {
@@ -224,6 +246,40 @@ func runCrypto(args []string) error {
 					wobs.Write(ob)
 					wobs.WriteByte('\n')
 				}
+			}
+			// truncated / damaged store values under B's key, presented with B's genuine cookie (Redis only)
+			if redis {
+				s.gredis.syncTime()
+				bk := s.sessionKey("sid-2")
+				orig, _ := s.mr.Get(bk)
+				ttl := s.mr.TTL(bk)
+				lens := []int{0, 1, 11, 12, 13, 16, 23, 24, 25, 39, 40, 41, len(orig) / 2, len(orig) - 1}
+				if *tier == "thorough" {
+					lens = nil
+					for l := 0; l < len(orig); l++ {
+						lens = append(lens, l)
+					}
+				}
+				for _, l := range lens {
+					if l > len(orig) {
+						continue
+					}
+					s.mr.Set(bk, orig[:l])
+					s.mr.SetTTL(bk, ttl)
+					for _, kind := range []string{"p", "i"} {
+						tid++
+						th := s.spawn(tid, reqSpec{kind: kind, cookie: B.cookie})
+						for i := 0; i < 50 && !th.done; i++ {
+							s.runOne(tid, 0)
+						}
+						ob, _ := json.Marshal(map[string]any{"kind": "swap", "redis": redis, "variant": fmt.Sprintf("store-value-prefix-%d", l), "class": "invalid", "endpoint": kind,
+							"outcome": s.outcomeCode(th), "panic": th.panicv != nil})
+						wobs.Write(ob)
+						wobs.WriteByte('\n')
+					}
+				}
+				s.mr.Set(bk, orig)
+				s.mr.SetTTL(bk, ttl)
 			}
 			// secret scan: everything written to the browser or the store during a login + refresh
 			secrets := map[string]string{"deployment-key": string(s.key), "dek-A": string(A.dek), "dek-B": string(B.dek),
